@@ -54,6 +54,8 @@ class Model:
         self.queue = []
         self.counter = itertools.count()
         self.events = {name: Ev("ev:" + name) for name in scenario.get("events", ())}
+        for name in scenario.get("defusers", ()):
+            self.events[name].defused = True      # one of its callbacks handles a failure
         self.procs = {}
         self.log = {}             # actor -> [(event, time, data...)]
         self.serial = 0
